@@ -659,6 +659,9 @@ class _Uuids:
         return uuid.UUID(int=(0xC20 << 96) | self.n)
 
 
+_PCF_FORMS = [0]
+
+
 def pcf_codec(encoding: str, fmt_ver: int) -> Tuple[Callable[[Any], bytes], Callable[[bytes], Any]]:
     import srctools.dmx as dmx
     from srctools.particles import Particle
@@ -667,7 +670,11 @@ def pcf_codec(encoding: str, fmt_ver: int) -> Tuple[Callable[[Any], bytes], Call
         real = dmx.get_uuid
         dmx.get_uuid = _Uuids()
         try:
-            root = Particle.export(parts)
+            # "particles: Iterable[Particle]": a list, a tuple, a one-shot iterator and a dict view are all iterables
+            _PCF_FORMS[0] += 1
+            form = _PCF_FORMS[0] % 4
+            given = parts if form == 0 else tuple(parts) if form == 1 else iter(list(parts)) if form == 2 else {id(p): p for p in parts}.values()
+            root = Particle.export(given)
             buf = io.BytesIO()
             if encoding == 'kv2':
                 root.export_kv2(buf, 'pcf', fmt_ver)
